@@ -1,2 +1,6 @@
 def literal_rules(rep):
     pass
+def bound_spellings(rep):
+    pass
+def repeat_mapping(rep):
+    pass
